@@ -38,6 +38,8 @@ cReadings == ReadingPool
 cOpsAll == {"add","sub","mul","div","neg","pow2","pow3","sin","cos","exp","tanh","atan","sqrt1","log1","tan","asinb","acosb","muldt","abs1"}
 \* |.| written as sqrt(.^2) around shared compound terms that take both signs
 cOpsAbs == {"add","sub","mul","neg","abs1"}
+\* a USER function (Config.python_modules) inside shared sub-terms
+cOpsSat == {"add", "mul", "usat"}
 cOpsRat == {"add","sub","mul","div","neg","pow2","muldt"}
 cOpsLin == {"add","sub","neg","muldt"}
 cConsts == <<RI(2), RQ(1,2), RI(-1), RI(3)>>
@@ -57,6 +59,7 @@ cPVec == <<1, 0, -1, 2, 1>>
 cPDiag0 == <<0, 1, 0, 2, 0>>
 cZDeltas == <<RI(1), RI(-2), RQ(1,2), RI(5), RI(-9), RI(40), RI(0), RI(3)>>
 cNoSeq == <<>>
+cActsModel == {"ModelEval", "ModelEvalNear"}
 cActsJac == {"JacEval", "JacEvalNear", "SensEval", "SensEvalNear"}
 cActsPredict == {"SetEstimate", "Predict"}
 cActsUpdate == {"SetEstimate", "Update"}
